@@ -53,7 +53,7 @@ def strict_markers(tree: ast.AST) -> Tuple[bytes, bytes]:
     """(marker a server looks for in the client's list, marker a client looks for in the server's list)"""
     fn = T.find_def(tree, 'SSHConnection._process_kexinit')
     top = [n for n in fn.body if isinstance(n, ast.If) and _is_call_self(n.test, 'is_server')   # type: ignore
-           and n.orelse]
+           and n.orelse and '_strict_kex' in ast.unparse(n)]
     if len(top) != 1:
         raise T.Untranslatable('_process_kexinit: `if self.is_server():` not found exactly once')
 
@@ -120,6 +120,68 @@ def range_check(fn: ast.AST, var: str, what: str) -> str:
                 len(n.body) == 1 and isinstance(n.body[0], ast.Raise) and 'ProtocolError' in ast.unparse(n.body[0]):
             return T.expr_to_lean(n.test.operand, {var: 'x', 'self._p': 'p'})
     raise T.Untranslatable(f'{what}: `if not <range test>: raise ProtocolError(...)` not found')
+
+
+def _calls(node: ast.AST, attr: str) -> List[ast.Call]:
+    return [n for n in ast.walk(node) if isinstance(n, ast.Call) and isinstance(n.func, ast.Attribute)
+            and n.func.attr == attr]
+
+
+def host_key_alg_flags(tree: ast.AST) -> Dict[str, bool]:
+    """What the code does with the server host key algorithm (each flag is a fact a theorem of Props/C03 needs):
+
+    sigAlgPerConnection     `choose_server_host_key` never calls `set_sig_algorithm` on a key pair taken from the
+                            shared `self._server_host_keys` mapping: every such call is on a name that was
+                            re-bound to a copy first (or there is no such call at all)
+    clientChoosesHostKeyAlg `_process_kexinit` stores `_choose_alg(.., self._server_host_key_algs,
+                            peer_host_key_algs)` in `self._host_key_alg`
+    clientChecksKeyAlg      `validate_server_host_key` hands `self._host_key_alg` to `_validate_host_key`, which
+                            refuses a certificate / key whose `host_key_algorithms` / `sig_algorithms` lack it
+    clientChecksSigAlg      `validate_server_host_key` compares the algorithm named in the signature with
+                            `get_signature_alg(self._host_key_alg)` and raises KeyExchangeFailed otherwise"""
+    flags: Dict[str, bool] = {}
+    fn = T.find_def(tree, 'SSHServerConnection.choose_server_host_key')
+    ok = True
+    for call in _calls(fn, 'set_sig_algorithm'):
+        tgt = ast.unparse(call.func.value)          # type: ignore
+        copied = any(isinstance(n, ast.Assign) and len(n.targets) == 1 and ast.unparse(n.targets[0]) == tgt
+                     and isinstance(n.value, ast.Call) and ast.unparse(n.value.func) in ('copy', 'copy.copy')
+                     and len(n.value.args) == 1 and ast.unparse(n.value.args[0]) == tgt
+                     and n.lineno < call.lineno for n in ast.walk(fn))
+        ok = ok and copied
+    flags['sigAlgPerConnection'] = ok
+    pk = T.find_def(tree, 'SSHConnection._process_kexinit')
+    flags['clientChoosesHostKeyAlg'] = any(
+        isinstance(n, ast.Assign) and len(n.targets) == 1 and ast.unparse(n.targets[0]) == 'self._host_key_alg'
+        and isinstance(n.value, ast.Call) and ast.unparse(n.value.func) == 'self._choose_alg'
+        and [ast.unparse(a) for a in n.value.args[1:]] == ['self._server_host_key_algs', 'peer_host_key_algs']
+        for n in ast.walk(pk))
+    try:
+        vs = T.find_def(tree, 'SSHClientConnection.validate_server_host_key')
+        vh = T.find_def(tree, 'SSHConnection._validate_host_key')
+    except T.Untranslatable:
+        raise
+    params = [a.arg for a in vh.args.args]          # type: ignore
+    passed = None
+    for call in _calls(vs, '_validate_host_key'):
+        for i, a in enumerate(call.args):
+            if ast.unparse(a) == 'self._host_key_alg' and i + 1 < len(params):
+                passed = params[i + 1]
+        for kw in call.keywords:
+            if ast.unparse(kw.value) == 'self._host_key_alg':
+                passed = kw.arg
+    tests = [ast.unparse(n.test) for n in ast.walk(vh) if isinstance(n, ast.If) and
+             any(isinstance(b, ast.Raise) and 'ValueError' in ast.unparse(b) for b in n.body)]
+    flags['clientChecksKeyAlg'] = passed is not None and \
+        any(f'{passed} not in cert.host_key_algorithms' in t for t in tests) and \
+        any(f'{passed} not in key.sig_algorithms' in t for t in tests)
+    flags['clientChecksSigAlg'] = any(
+        isinstance(n, ast.If) and isinstance(n.test, ast.Compare) and len(n.test.ops) == 1
+        and isinstance(n.test.ops[0], ast.NotEq)
+        and 'get_signature_alg(self._host_key_alg)' in (ast.unparse(n.test.left), ast.unparse(n.test.comparators[0]))
+        and any(isinstance(b, ast.Raise) and 'KeyExchangeFailed' in ast.unparse(b) for b in n.body)
+        for n in ast.walk(vs))
+    return flags
 
 
 def generate() -> Dict[str, Any]:
@@ -234,6 +296,18 @@ def generate() -> Dict[str, Any]:
     out += f'def strictMarkerFromClient : String := {T.lean_str(sc)}\n'
     out += f'def strictMarkerFromServer : String := {T.lean_str(ss)}\n\n'
 
+    # ---- the server host key algorithm
+    pubkey = importlib.import_module('asyncssh.public_key')
+    out += '/-- `_certificate_sig_alg_map`: certificate host key algorithm ↦ signature algorithm -/\n'
+    out += 'def certSigAlgMap : List (String × String) :=\n  ' + T.lean_list(
+        [f'({T.lean_str(k)}, {T.lean_str(v)})' for k, v in pubkey._certificate_sig_alg_map.items()]) + '\n\n'
+    flags = host_key_alg_flags(conn_tree)
+    out += '/-! what the code does with the negotiated server host key algorithm (from the AST of\n'
+    out += '    `choose_server_host_key`, `_process_kexinit`, `validate_server_host_key`, `_validate_host_key`) -/\n'
+    for k, v in flags.items():
+        out += f'def {k} : Bool := {T.lean_bool(v)}\n'
+    out += '\n'
+
     # ---- hash input construction
     pref = hash_prefix_order(conn_tree)
     dh_order = update_order(T.find_def(dh_tree, '_KexDHBase._compute_hash'), {
@@ -266,4 +340,4 @@ def generate() -> Dict[str, Any]:
     changed = vlib.write_if_changed(vlib.module_path('AsyncsshModel.Gen.C03'), out)
     return {'gen_file': 'Gen/C03.lean', 'changed': changed, 'kex_algs': len(rows), 'dh_groups': len(groups),
             'hash_prefix': pref, 'dh_hash_order': dh_order, 'rsa_hash_order': rsa_order,
-            'range_checks': [cchk, schk]}
+            'range_checks': [cchk, schk], 'host_key_alg_flags': flags}
